@@ -621,6 +621,17 @@ def _side_conditions(snap):
     return None
 
 
+def _unusable_dynamic_inputs(view, k):
+    """The dynamic inputs of step k that are detached or not CONFIRMED / BUILT (Sched.unusable_dyn; the negation of
+    dynamic_inputs_ready in Scheduler._derive_job): what a deferred step may legitimately wait for."""
+    out = []
+    for d in view.in_edges.get(k, []):
+        f = view.files.get(d["src"]) if d["dyn"] else None
+        if f is not None and (f["detached"] or f["state"] not in (M.FS.CONFIRMED.value, M.FS.BUILT.value)):
+            out.append(f["label"])
+    return out
+
+
 def oracle(ctx):
     hs = histories(ctx)
     t0 = time.time()
@@ -726,6 +737,12 @@ def oracle(ctx):
                     progress = (sa["state"] in (M.SUCCEEDED, M.FAILED) or sa["deferred"]
                                 or (sb["hash_stored"] and not sa["hash_stored"])
                                 or sa["defer_count"] > sb["defer_count"])
+                    if op == "validate" and not progress and not _unusable_dynamic_inputs(va, k):
+                        # the repaired validate_dynamic_job (flag computed in the outcome transaction): every
+                        # dynamic input came back while the job was in flight; the next job of the step is a hash
+                        # check (try_skip_job), not the same validation job (C10_validate_outcome_redispatched_only_as_check)
+                        progress = True
+                        ctx.count("validate_outcomes_not_deferred_all_inputs_usable")
                     if sa["state"] == M.PENDING and not progress:
                         branch = {"validate": "unchanged" if not ev["args"].get("changed") else "changed",
                                   "skip": "ok" if ev["args"].get("ok") else "mismatch"}.get(op, ev["args"].get("kind"))
@@ -753,8 +770,8 @@ def oracle(ctx):
                         continue
                     ctx.case(("oracle-phase-end-deferred", repr(s), repr(after["deps"])), True)
                     dyn = [va.files[d["src"]] for d in va.in_edges.get(k, []) if d["dyn"] and d["src"] in va.files]
-                    if any(f["state"] not in (M.FS.CONFIRMED.value, M.FS.BUILT.value) for f in dyn):
-                        continue
+                    if _unusable_dynamic_inputs(va, k):
+                        continue    # justified: it waits for an input that is detached or not CONFIRMED / BUILT
                     if va.eligible_spec(k, ignore_deferred=True):
                         fail(f"phase-end:deferred-step-with-available-inputs:parked-by-{parked_by.get(k, 'unknown')}", "phase-end",
                              f"the build phase ended with step {s['label']!r} PENDING, attached, needed, safe and ready, all its "
